@@ -349,7 +349,7 @@ pub fn run(ctx: &RunCtx) -> PropResult {
     let runf = |c: &Case, d: &Path| run_fault(c, d, &findings);
     run_replays::<Case, _>(ctx, "fault", &ctx.verif_dir.join("replays").join("C11"), runf, &mut report);
     let runf = |c: &Case, d: &Path| run_fault(c, d, &findings);
-    run_generated(ctx, "fault", ctx.tier.pick(1500, 40_000), fault_strategy, runf, &sample, &mut report);
+    run_generated(ctx, "fault", ctx.tier.pick(3000, 40_000), fault_strategy, runf, &sample, &mut report);
     let runf = |c: &Case, d: &Path| run_fault(c, d, &findings);
     run_enumerated(ctx, "fault-nth", enumerated(ctx.tier == Tier::Thorough), runf, &sample, &mut report);
     PropResult {
